@@ -123,7 +123,7 @@ PROPS = {
 }
 
 # ---- the part of the source each property's statement depends on (all of it is fingerprinted on every run)
-PIPE_LEX = ['lexerDigests', 'utilsDigests']
+PIPE_LEX = ['lexerDigests', 'utilsDigests', 'mainDigests']      # main: how the text of a script file / a REPL line reaches the scanner
 PIPE_FRONT = ['lexerDigests', 'parserDigests', 'utilsDigests', 'mainDigests']
 for _pid, _p in PROPS.items():
     if _pid in ('C09', 'C10'):
